@@ -158,3 +158,73 @@ package mysql
 //@   ensures C20.nonnil [C20]: result != nil
 //@ func mysql.NewExternalReplication
 //@   ensures C20.nonnil [C20]: result1 == nil ==> result0 != nil
+
+// ---- the statement methods of Node against its exec primitives: each sends its own statement and hands the primitive's
+// error back (their effect contracts stay assumed in /verif/specs/env.spec; the SQL text behind each query name is trusted)
+//@ func (*mysql.Node).SetWritable
+//@   flags partial
+//@   assert_at exec#1 stmt.SetWritable.query [C01,C18]: callarg0 == querySetWritable
+//@   assert_at return#* stmt.SetWritable.answer [C01,C18]: reached("exec", 1) && result == resultof("exec", 1)
+//@ func (*mysql.Node).SemiSyncSetMaster
+//@   flags partial
+//@   assert_at exec#1 stmt.SemiSyncSetMaster.query [C04]: callarg0 == querySemiSyncSetMaster
+//@   assert_at return#* stmt.SemiSyncSetMaster.answer [C04]: reached("exec", 1) && result == resultof("exec", 1)
+//@ func (*mysql.Node).SemiSyncSetSlave
+//@   flags partial
+//@   assert_at exec#1 stmt.SemiSyncSetSlave.query [C04]: callarg0 == querySemiSyncSetSlave
+//@   assert_at return#* stmt.SemiSyncSetSlave.answer [C04]: reached("exec", 1) && result == resultof("exec", 1)
+//@ func (*mysql.Node).SemiSyncDisable
+//@   flags partial
+//@   assert_at exec#1 stmt.SemiSyncDisable.query [C04,C08]: callarg0 == querySemiSyncDisable
+//@   assert_at return#* stmt.SemiSyncDisable.answer [C04,C08]: reached("exec", 1) && result == resultof("exec", 1)
+//@ func (*mysql.Node).SetSemiSyncWaitSlaveCount
+//@   flags partial
+//@   assert_at exec#1 stmt.SetSemiSyncWaitSlaveCount.query [C04]: callarg0 == querySetSemiSyncWaitSlaveCount
+//@   assert_at return#* stmt.SetSemiSyncWaitSlaveCount.answer [C04]: reached("exec", 1) && result == resultof("exec", 1)
+//@ func (*mysql.Node).SetOffline
+//@   flags partial
+//@   assert_at exec#1 stmt.SetOffline.query [C17,C08]: callarg0 == queryEnableOfflineMode
+//@   assert_at return#* stmt.SetOffline.answer [C17,C08]: reached("exec", 1) && result == resultof("exec", 1)
+//@ func (*mysql.Node).SetOnline
+//@   flags partial
+//@   assert_at exec#1 stmt.SetOnline.query [C17]: callarg0 == queryDisableOfflineMode
+//@   assert_at return#* stmt.SetOnline.answer [C17]: reached("exec", 1) && result == resultof("exec", 1)
+//@ func (*mysql.Node).SetSemiSyncWaitSlaveCount
+//@   assert_at exec#1 stmt.SetSemiSyncWaitSlaveCount.value [C04]: unbox(callarg1["wait_slave_count"], "int") == c
+//@ func (*mysql.Node).SetReadOnly
+//@   flags partial
+//@   assert_at setReadonlyWithTimeout#1 stmt.SetReadOnly.flag [C01,C08,C10,C18]: callarg0 == superReadOnly
+//@   assert_at return#* stmt.SetReadOnly.answer [C01,C08,C10,C18]: reached("setReadonlyWithTimeout", 1) && result == resultof("setReadonlyWithTimeout", 1)
+//@ func (*mysql.Node).StopSlave
+//@   flags partial
+//@   assert_at execMogrifyWithTimeout#1 stmt.StopSlave.query [C01,C10]: resultof("GetStopSlaveQuery", 1, 1) == nil && callarg0 == resultof("GetStopSlaveQuery", 1, 0)
+//@   assert_at return#* stmt.StopSlave.answer [C01,C10]: (reached("execMogrifyWithTimeout", 1) ==> result == resultof("execMogrifyWithTimeout", 1)) && (!reached("execMogrifyWithTimeout", 1) ==> result != nil)
+//@ func (*mysql.Node).StartSlave
+//@   flags partial
+//@   assert_at execMogrify#1 stmt.StartSlave.query [C10]: resultof("GetStartSlaveQuery", 1, 1) == nil && callarg0 == resultof("GetStartSlaveQuery", 1, 0)
+//@   assert_at return#* stmt.StartSlave.answer [C10]: (reached("execMogrify", 1) ==> result == resultof("execMogrify", 1)) && (!reached("execMogrify", 1) ==> result != nil)
+//@ func (*mysql.Node).StopSlaveIOThread
+//@   flags partial
+//@   assert_at execMogrify#1 stmt.StopSlaveIOThread.query [C01]: resultof("GetStopSlaveIOThreadQuery", 1, 1) == nil && callarg0 == resultof("GetStopSlaveIOThreadQuery", 1, 0)
+//@   assert_at return#* stmt.StopSlaveIOThread.answer [C01]: (reached("execMogrify", 1) ==> result == resultof("execMogrify", 1)) && (!reached("execMogrify", 1) ==> result != nil)
+//@ func (*mysql.Node).StartSlaveIOThread
+//@   flags partial
+//@   assert_at execMogrify#1 stmt.StartSlaveIOThread.query [C04]: resultof("GetStartSlaveIOThreadQuery", 1, 1) == nil && callarg0 == resultof("GetStartSlaveIOThreadQuery", 1, 0)
+//@   assert_at return#* stmt.StartSlaveIOThread.answer [C04]: (reached("execMogrify", 1) ==> result == resultof("execMogrify", 1)) && (!reached("execMogrify", 1) ==> result != nil)
+//@ func (*mysql.Node).ResetSlaveAll
+//@   flags partial
+//@   assert_at execMogrify#1 stmt.ResetSlaveAll.query [C01,C10]: resultof("GetResetSlaveQuery", 1, 1) == nil && callarg0 == resultof("GetResetSlaveQuery", 1, 0)
+//@   assert_at return#* stmt.ResetSlaveAll.answer [C01,C10]: (reached("execMogrify", 1) ==> result == resultof("execMogrify", 1)) && (!reached("execMogrify", 1) ==> result != nil)
+//@ func (*mysql.Node).ChangeMaster
+//@   flags partial
+//@   assert_at execMogrify#1 stmt.ChangeMaster.query [C01,C10,C16]: resultof("GetChangeMasterQuery", 1, 1) == nil && callarg0 == resultof("GetChangeMasterQuery", 1, 0) && unbox(callarg1["host"], "string") == host
+//@   assert_at return#* stmt.ChangeMaster.answer [C01,C10,C16]: (reached("execMogrify", 1) ==> result == resultof("execMogrify", 1)) && (!reached("execMogrify", 1) ==> result != nil)
+//@ func (*mysql.Node).SetReplicationSettings
+//@   flags partial
+//@   assert_at exec#1 stmt.SetReplicationSettings.flush [C19]: callarg0 == querySetInnodbFlushLogAtTrxCommit && unbox(callarg1["level"], "int") == rs.InnodbFlushLogAtTrxCommit
+//@   assert_at exec#2 stmt.SetReplicationSettings.sync [C19]: callarg0 == querySetSyncBinlog && unbox(callarg1["sync_binlog"], "int") == rs.SyncBinlog && resultof("exec", 1) == nil
+//@   assert_at return#* stmt.SetReplicationSettings.answer [C19]: result == nil ==> reached("exec", 2) && resultof("exec", 2) == nil
+//@ func (*mysql.Node).OptimizeReplication
+//@   flags partial
+//@   assert_at exec#1 stmt.OptimizeReplication.flush [C19]: callarg0 == querySetInnodbFlushLogAtTrxCommit && unbox(callarg1["level"], "int") == OptimalInnodbFlushLogAtTrxCommitValue
+//@   assert_at exec#2 stmt.OptimizeReplication.sync [C19]: callarg0 == querySetSyncBinlog && unbox(callarg1["sync_binlog"], "int") == OptimalSyncBinlogValue
